@@ -6,5 +6,5 @@ Open Scope N_scope.
 
 (* cfg4 / ev4 (Proofs/TeardownBounded.v): two established associations, each released and each silent past the
    read timeout, all interleavings *)
-Lemma inst4_ok : instance_ok 1000000 cfg4 ev4 = true.
+Lemma inst4_ok : instance_ok fuel_1m cfg4 ev4 = true.
 Proof. vm_compute. reflexivity. Qed.
